@@ -201,18 +201,21 @@ func verifC19OpenConversation(t *testing.T, f *verifC19Fix, c *grpc.StubConnecti
 }
 
 func TestVerifC19V2(t *testing.T) {
+	if crash.Supervise(t) {
+		return // this process supervised a child that ran the sweep
+	}
 	logrus.SetOutput(io.Discard)
 	logrus.SetLevel(logrus.PanicLevel)
 	r := ev.Start(t, "C19")
-	defer r.Finish()
+	defer func() { r.Finish(); crash.MarkDone() }()
 	s := crash.NewSweep(r, "C19")
-	r.Rule("v2 handlers: for each of the nine message types every combination of per-field alphabets (byte strings of length 0/1/31/32/33 and refs of present/absent/private transactions; clocks and range bounds {0,1,PageSize-1,PageSize,PageSize+1,2*PageSize,MaxUint32-1,MaxUint32}; IBLTs {empty,1 byte,truncated,valid,valid of another set,all 0xff,one byte too long,one bucket short}; conversation ids {empty, unknown, live: obtained by making the node ask first - EVERY kind of open conversation (State, TransactionListQuery, TransactionRangeQuery) is offered to EVERY response handler (TransactionSet, TransactionList), not only the matching one}; transaction lists over {valid new, valid without payload, private, known, orphan, wrong payload, garbage, truncated, JSON-serialised}) x configuration {node DID unset, set} x peer {anonymous, authenticated}; each message is marshalled and unmarshalled before it is handled")
+	r.Rule("v2 handlers: for each of the nine message types every combination of per-field alphabets (byte strings of length 0/1/31/32/33 and refs of present/absent/private transactions; clocks, range bounds and message counters {0,1,PageSize-1,PageSize,PageSize+1,2*PageSize,1e9,2^31-1,2^31,MaxUint32-1,MaxUint32}; IBLTs {empty,1 byte,truncated,valid,valid of another set,all 0xff,one byte too long,one bucket short}; conversation ids {empty, unknown, live: obtained by making the node ask first - EVERY kind of open conversation (State, TransactionListQuery, TransactionRangeQuery) is offered to EVERY response handler (TransactionSet, TransactionList), not only the matching one}; transaction lists over {valid new, valid without payload, private, known, orphan, wrong payload, garbage, truncated, JSON-serialised}) x configuration {node DID unset, set} x peer {anonymous, authenticated}; each message is marshalled and unmarshalled before it is handled")
 
 	bytesAlpha := func(f *verifC19Fix) map[string][]byte {
 		return map[string][]byte{"len0": {}, "len1": {1}, "len31": bytes.Repeat([]byte{3}, 31), "len32-absent": bytes.Repeat([]byte{4}, 32), "len33": bytes.Repeat([]byte{5}, 33),
 			"root": f.root.Ref().Slice(), "child": f.child.Ref().Slice(), "private": f.private.Ref().Slice(), "pending": f.pendingPublic.Ref().Slice(), "zero32": make([]byte, 32)}
 	}
-	clocks := []uint32{0, 1, dag.PageSize - 1, dag.PageSize, dag.PageSize + 1, 2 * dag.PageSize, math.MaxUint32 - 1, math.MaxUint32}
+	clocks := []uint32{0, 1, dag.PageSize - 1, dag.PageSize, dag.PageSize + 1, 2 * dag.PageSize, 1000000000, math.MaxInt32, math.MaxInt32 + 1, math.MaxUint32 - 1, math.MaxUint32}
 	keysOf := func(m map[string][]byte) []string {
 		ks := make([]string, 0, len(m))
 		for k := range m {
@@ -402,7 +405,7 @@ func TestVerifC19V2(t *testing.T) {
 			{"new", "new"}, {"new", "garbage"}, {"garbage", "new"}, {"new", "new-private"}, {"known", "new", "orphan"}, {"new-private", "empty"}}
 		for _, list := range lists {
 			for _, cidKind := range []string{"live-listquery", "live-rangequery", "live-state", "unknown", "empty"} {
-				for _, nums := range [][2]uint32{{1, 1}, {0, 0}, {1, 2}, {2, 1}, {math.MaxUint32, math.MaxUint32}} {
+				for _, nums := range [][2]uint32{{1, 1}, {0, 0}, {1, 2}, {2, 1}, {math.MaxInt32, math.MaxInt32 + 1}, {math.MaxUint32, math.MaxUint32}} {
 					list, cidKind, nums := list, cidKind, nums
 					run("v2.handleTransactionList", fmt.Sprintf("txs=%v/cid=%s/msg=%d-of-%d", list, cidKind, nums[0], nums[1]), func(f *verifC19Fix, c *grpc.StubConnection) (*Envelope, handleFunc) {
 						cid := []byte{}
